@@ -1025,15 +1025,40 @@ func (c *clipperBase) processHorzJoins() {
 				or2.owner = or1
 			}
 		} else {
-			or2.pts = nil
 			if c.usingPolyTree {
+				// or1 is about to carry or2's ring as well, but it keeps only its
+				// own owner hint, which is just the outrec of the nearest hot edge
+				// on its left when it closed - possibly none, or an unrelated one.
+				// If or2's ring was split off its owner by an earlier horizontal
+				// join it is known (by a containment test) to lie inside that owner.
+				// Dropping that owner can leave the joined ring without its real
+				// owner among the candidates recursiveCheckOwners will test, and
+				// a hole then ends up at the top level of the tree.
+				or2Owner := getRealOutRec(or2.owner)
+				or2IsSplit := or2Owner != nil && or2Owner != or1 && c.isSplitOf(or2, or2Owner)
+				or2.pts = nil
 				setOwner(or2, or1)
 				moveSplits(or2, or1)
+				if or2IsSplit && isValidOwner(or1, or2Owner) && isValidOwner(or2Owner, or1) {
+					or1.owner = or2Owner
+				}
 			} else {
+				or2.pts = nil
 				or2.owner = or1
 			}
 		}
 	}
+}
+
+// isSplitOf reports whether outrec currently holds a ring that was split off
+// owner, i.e. whether one of owner's recorded splits resolves to outrec.
+func (c *clipperBase) isSplitOf(outrec, owner *OutRec) bool {
+	for _, i := range owner.splits {
+		if getRealOutRec(c.outrecList[i]) == outrec {
+			return true
+		}
+	}
+	return false
 }
 
 func (c *clipperBase) reset() {
